@@ -12,6 +12,10 @@ use num_traits::{Signed, Zero};
 
 pub struct C19 {
     cov: Cov,
+    /// (account, bank) -> last time the position's shares or its credited emissions were seen to
+    /// change (committed history only).  The program's own per-position timestamp can never be
+    /// older than this, so size x (now - this) x rate bounds any single credit from above.
+    touched: std::collections::BTreeMap<(Pubkey, Pubkey), i64>,
 }
 
 impl Default for C19 {
@@ -31,8 +35,9 @@ impl Default for C19 {
             "emissions_paid_to_authority",
             "emissions_paid_permissionless",
             "emissions_conservation_checked",
+            "emissions_credit_bounded_by_history",
         ]);
-        C19 { cov }
+        C19 { cov, touched: Default::default() }
     }
 }
 
@@ -49,6 +54,85 @@ fn t22_fee(store: &Store, mint: &Pubkey, amount: u64, epoch: u64) -> u64 {
 fn floor_u64(q: &Q) -> u64 {
     use num_traits::ToPrimitive;
     q.floor().to_integer().to_u64().unwrap_or(u64::MAX)
+}
+
+impl C19 {
+    /// History rule for "proportional to position size, time and rate": whatever instruction
+    /// credits emissions to a position, the credit cannot exceed what the position's size (as it
+    /// stood before the instruction) earns over the time since the position last changed.
+    fn judge_credit_history(&mut self, ix: &crate::rt::Ix, a: &Store, b: &Store, s: &Step, out: &mut Vec<Violation>) {
+        let now = s.clock.unix_timestamp;
+        let mut seen: Vec<Pubkey> = Vec::new();
+        for m in ix.accounts.iter() {
+            let k = m.pubkey;
+            if seen.contains(&k) {
+                continue;
+            }
+            seen.push(k);
+            let (Some(x0), Some(x1)) = (model::account_of(a, &k), model::account_of(b, &k)) else { continue };
+            let mut banks: Vec<Pubkey> = Vec::new();
+            for bal in x0.lending_account.balances.iter().chain(x1.lending_account.balances.iter()) {
+                if bal.active != 0 && !banks.contains(&bal.bank_pk) {
+                    banks.push(bal.bank_pk);
+                }
+            }
+            for bk in banks {
+                let s0 = slot_of(&x0, &bk);
+                let s1 = slot_of(&x1, &bk);
+                let key = (k, bk);
+                match (s0, s1) {
+                    (Some(s0), Some(s1)) => {
+                        let d_out = q_w(s1.emissions_outstanding) - q_w(s0.emissions_outstanding);
+                        if d_out > qi(0) {
+                            if let (Some(pre), Some(post)) = (model::bank_of(a, &bk), model::bank_of(b, &bk)) {
+                                let t = self.touched.get(&key).copied().unwrap_or(s0.last_update as i64);
+                                let dt = (now - t).max(0) as u64;
+                                let sa = q_w(s0.asset_shares);
+                                let sl = q_w(s0.liability_shares);
+                                let lending = pre.flags & EMISSIONS_FLAG_LENDING_ACTIVE != 0;
+                                let borrowing = pre.flags & EMISSIONS_FLAG_BORROW_ACTIVE != 0;
+                                let asv = model::q_max(q_w(pre.asset_share_value), q_w(post.asset_share_value));
+                                let lsv = model::q_max(q_w(pre.liability_share_value), q_w(post.liability_share_value));
+                                let mut amount = Q::zero();
+                                if lending {
+                                    amount = model::q_max(amount, &sa * &asv);
+                                }
+                                if borrowing {
+                                    amount = model::q_max(amount, &sl * &lsv);
+                                }
+                                let rate = qu(pre.emissions_rate);
+                                let bound = qu(dt) * &amount / model::pow10(pre.mint_decimals as u32) / qi(31_536_000) * &rate;
+                                let tol = (&rate * qu(dt + 2) + qi(2)) * ulp() * qi(4);
+                                self.cov.probe("emissions_credit_bounded_by_history");
+                                if d_out > &bound + &tol {
+                                    out.push(viol("C19", "emissions_credited_for_time_before_position_last_changed", ix.tag,
+                                        format!("account {k} bank {bk}: credited {} but size {} over {dt}s at rate {} earns at most {} (position last changed at {t}, stored timestamp {})",
+                                            q_str(&d_out), q_str(&amount), pre.emissions_rate, q_str(&bound), s0.last_update), s.event_index));
+                                }
+                            }
+                        }
+                        let changed = s0.asset_shares.value != s1.asset_shares.value
+                            || s0.liability_shares.value != s1.liability_shares.value
+                            || s0.emissions_outstanding.value != s1.emissions_outstanding.value;
+                        if changed && !s.is_fork {
+                            self.touched.insert(key, now);
+                        }
+                    }
+                    (None, Some(_)) => {
+                        if !s.is_fork {
+                            self.touched.insert(key, now);
+                        }
+                    }
+                    (Some(_), None) => {
+                        if !s.is_fork {
+                            self.touched.remove(&key);
+                        }
+                    }
+                    (None, None) => {}
+                }
+            }
+        }
+    }
 }
 
 impl Monitor for C19 {
@@ -71,6 +155,7 @@ impl Monitor for C19 {
             let a = states[i];
             let b = states[i + 1];
             let fee_state = model::fee_state_of(a);
+            self.judge_credit_history(ix, a, b, s, out);
             for (bk, pre) in model::all_banks(a) {
                 let post = model::bank_of(b, &bk);
                 let liq0 = model::vault_amount(a, &pre.liquidity_vault);
